@@ -188,6 +188,13 @@ func kRes(args []string) (string, string) {
 			cut, _ := strconv.Atoi(f[4])
 			pol, _ := strconv.Atoi(f[5])
 			data := recordBytes(f[2], n)
+			if len(f) > 6 && f[6] != "" {
+				// the record as one gzip member; "zc": with a wrong stored checksum, which only surfaces when the member is drained
+				data = gzMember(data)
+				if f[6] == "zc" {
+					data[len(data)-8] ^= 0x55
+				}
+			}
 			s := &gowarc.VerifStream{Data: data}
 			if cut >= 0 && cut < len(data) {
 				s = &gowarc.VerifStream{Data: data[:cut], Fault: true}
@@ -358,12 +365,27 @@ func genRes(r *rng, n int, tier string, emit func(string, ...string)) {
 					sz = 0
 				}
 				cut := -1
-				if r.chance(1, 2) {
-					cut = r.intn(len(recordBytes(kind, sz)) + 1)
+				gzv := ""
+				if r.chance(1, 3) {
+					gzv = pick(r, []string{"z", "z", "zc"})
 				}
-				ops = append(ops, fmt.Sprintf("um:%d:%s:%d:%d:%d", mem, kind, sz, cut, r.intn(3)))
+				total := len(recordBytes(kind, sz))
+				if gzv != "" {
+					total = len(gzMember(recordBytes(kind, sz)))
+				}
+				if r.chance(1, 2) {
+					cut = r.intn(total + 1)
+					if gzv != "" && r.chance(1, 2) {
+						// the member's trailer (checksum and length) is read last, when the record has been built already
+						cut = total - 1 - r.intn(9)
+						if cut < 0 {
+							cut = 0
+						}
+					}
+				}
+				ops = append(ops, fmt.Sprintf("um:%d:%s:%d:%d:%d:%s", mem, kind, sz, cut, r.intn(3), gzv))
 				stat("res-op", "unmarshal")
-				stat("res-um", fmt.Sprintf("%s,cut=%s", kind, tf(cut >= 0)))
+				stat("res-um", fmt.Sprintf("%s,cut=%s,gz=%s", kind, tf(cut >= 0), gzv))
 				// whether a record comes back is decided by the implementation; handle numbering follows what was returned
 				ops[len(ops)-1] += ""
 				records = append(records, nh)
